@@ -135,26 +135,64 @@ C11_Clauses(v, o) ==
   (IF C11_Deadline(v, o) THEN {} ELSE {"C11_Deadline"})
 
 -----------------------------------------------------------------------------
-(* The TCP layer (TcpConnecting::connect): one-sided, untimed reading of C10 for observations       *)
-(* taken through the public TcpTransport::connect_to_addrs against loopback ports.                  *)
-(*   v = [n, oc : <<"ok" (listening) | "err" (closed port) | "never" (does not answer)>>,           *)
-(*        tmoMs, conc],   o = [kind : "ok"|"err"|"timeout"|"noprogress"|"other", id, elapsedMs]     *)
-Tcp_C10(v, o) ==
-  /\ o.kind \in {"ok", "err", "timeout", "noprogress"}
-  /\ o.kind = "ok" => o.id \in 1..v.n /\ v.oc[o.id] = "ok"
-  /\ o.kind = "err" => v.n > 0 /\ \A i \in 1..v.n : v.oc[i] = "err"
-  /\ o.kind = "noprogress" <=> v.n = 0
+(* The TCP layer (TcpConnecting::connect): OUTCOME-level readings of C10 / C11 for observations       *)
+(* taken through the public TcpTransport::connect_to_addrs / Service::call on loopback, and for the   *)
+(* terminal states of the model TcpEyeballs.tla.                                                      *)
+(*   v = [n, oc : <<..>> per candidate IN THE ORDER THE ATTEMPTS ARE HANDED OVER:                      *)
+(*          "ok" (listening), "err" (port refuses), "never" (does not answer),                         *)
+(*          "setuperr" (the candidate's local socket set-up - socket(), bind to the configured local   *)
+(*                      address - fails; that is this candidate's failure, nobody else's),             *)
+(*        tmoMs : happy_eyeballs_timeout or NONE, conc : happy_eyeballs_concurrency or NONE]           *)
+(*   o = [kind : "ok" | "err" | "timeout" | "noprogress" | ("hang": model only), id : connected        *)
+(*        candidate, errclass : "setup" | "connect" | "" (class of the reported error), elapsedMs]     *)
+(* Assumption behind the "must succeed" clauses: loopback answers (accept / refuse / set-up error)     *)
+(* take far less than one stagger interval tmoMs / n (>= 1 s in the driver's slow runs).               *)
+TcpIdx(v)        == 1..v.n
+TcpFailing(v, i) == v.oc[i] \in {"err", "setuperr"}
+TcpClass(v, i)   == IF v.oc[i] = "setuperr" THEN "setup" ELSE "connect"
+TcpBatch(v)      == IF v.conc = NONE THEN v.n ELSE EMin(v.n, EMax(v.conc, 1))
+\* TcpConnecting::connect derives the stagger from the ORIGINAL number of addresses
+TcpDelay(v)      == IF v.tmoMs = NONE THEN NONE ELSE IF v.n = 0 THEN v.tmoMs ELSE v.tmoMs \div v.n
+
+Tcp_C10_Outcome(v, o) == \/ o.kind \in {"ok", "err", "timeout", "noprogress"}
+                         \/ o.kind = "hang" /\ v.tmoMs = NONE
+\* "yields the connection of the attempt that succeeds"
+Tcp_C10_FirstSuccessWins(v, o) == o.kind = "ok" => o.id \in TcpIdx(v) /\ v.oc[o.id] = "ok"
+\* "succeeds whenever some candidate, once attempted, accepts before the deadline": a listening candidate that
+\* has only immediately answering candidates before it is attempted at once (initial batch or failure triggers)
+Tcp_C10_SucceedsIfSomeAccepts(v, o) ==
+  (\E k \in TcpIdx(v) : v.oc[k] = "ok" /\ \A i \in 1..(k-1) : v.oc[i] # "never") => o.kind = "ok"
+\* "reports failure only after every candidate has been tried and has failed - returning the first failure -
+\*  or after the overall deadline has expired; with no candidates ... no-progress"
+Tcp_C10_FailureOnlyAfterAll(v, o) ==
+  /\ o.kind = "err" => /\ v.n > 0 /\ \A i \in TcpIdx(v) : TcpFailing(v, i)
+                       /\ o.errclass \in {TcpClass(v, i) : i \in TcpIdx(v)}           \* error mapping: a candidate's own error
   /\ o.kind = "timeout" => v.tmoMs # NONE /\ o.elapsedMs >= v.tmoMs
-  /\ (v.n > 0 /\ \A i \in 1..v.n : v.oc[i] = "err") => o.kind = "err"      \* refusals are immediate
-  /\ (v.n > 0 /\ \A i \in 1..v.n : v.oc[i] = "ok") => o.kind = "ok" /\ o.id = 1
-\* TcpConnecting::connect derives the stagger as  delay = happy_eyeballs_timeout / number of addresses.
-\* never earlier, one-sided: when the connection came from a candidate beyond the initial batch and all
-\* earlier candidates never answer, it cannot have been started before (id - batch) such delays.
-TcpBatch(v) == IF v.conc = NONE THEN v.n ELSE EMin(v.n, EMax(v.conc, 1))
-TcpDelay(v) == IF v.n = 0 THEN v.tmoMs ELSE v.tmoMs \div v.n
-Tcp_C11(v, o) ==
-  /\ (/\ o.kind = "ok" /\ v.tmoMs # NONE /\ o.id > TcpBatch(v)
-      /\ \A i \in 1..(o.id - 1) : v.oc[i] = "never")
-        => o.elapsedMs >= (o.id - TcpBatch(v)) * TcpDelay(v)
-  /\ (o.kind = "timeout") => v.tmoMs # NONE /\ o.elapsedMs >= v.tmoMs
+  /\ (o.kind = "noprogress") <=> (v.n = 0)
+  /\ (v.n > 0 /\ \A i \in TcpIdx(v) : TcpFailing(v, i)) => o.kind = "err"            \* refusals are immediate
+Tcp_C10(v, o) == /\ Tcp_C10_Outcome(v, o) /\ Tcp_C10_FirstSuccessWins(v, o)
+                 /\ Tcp_C10_SucceedsIfSomeAccepts(v, o) /\ Tcp_C10_FailureOnlyAfterAll(v, o)
+
+\* never earlier, one-sided: when the connection came from a candidate beyond the initial batch and all earlier
+\* candidates never answer, it cannot have been started before (id - batch) stagger delays of tmoMs / n
+Tcp_C11_NeverEarlier(v, o) ==
+  (/\ o.kind = "ok" /\ v.tmoMs # NONE /\ o.id > TcpBatch(v)
+   /\ \A i \in 1..(o.id - 1) : v.oc[i] = "never")
+     => o.elapsedMs >= (o.id - TcpBatch(v)) * TcpDelay(v)
+\* as soon as the stagger delay (tmoMs / n) has elapsed: silent candidates in front are bridged by the stagger, so
+\* every listening candidate behind silent ones is started at the latest (n - 1) * tmoMs / n after the start,
+\* before the deadline (a listening candidate with only answering candidates in front is C10's clause above)
+Tcp_C11_AsSoonAsDelay(v, o) ==
+  (v.tmoMs # NONE /\ \E k \in TcpIdx(v) : v.oc[k] = "ok" /\ \E i \in 1..(k-1) : v.oc[i] = "never") => o.kind = "ok"
+Tcp_C11_Deadline(v, o) == o.kind = "timeout" => v.tmoMs # NONE /\ o.elapsedMs >= v.tmoMs
+Tcp_C11(v, o) == Tcp_C11_NeverEarlier(v, o) /\ Tcp_C11_AsSoonAsDelay(v, o) /\ Tcp_C11_Deadline(v, o)
+
+Tcp_Clauses(v, o) ==
+  (IF Tcp_C10_Outcome(v, o) THEN {} ELSE {"C10_Outcome"}) \cup
+  (IF Tcp_C10_FirstSuccessWins(v, o) THEN {} ELSE {"C10_FirstSuccessWins"}) \cup
+  (IF Tcp_C10_SucceedsIfSomeAccepts(v, o) THEN {} ELSE {"C10_SucceedsIfSomeAccepts"}) \cup
+  (IF Tcp_C10_FailureOnlyAfterAll(v, o) THEN {} ELSE {"C10_FailureOnlyAfterAll"}) \cup
+  (IF Tcp_C11_NeverEarlier(v, o) THEN {} ELSE {"C11_NeverEarlier"}) \cup
+  (IF Tcp_C11_AsSoonAsDelay(v, o) THEN {} ELSE {"C11_AsSoonAsDelay"}) \cup
+  (IF Tcp_C11_Deadline(v, o) THEN {} ELSE {"C11_Deadline"})
 =============================================================================
